@@ -13,6 +13,7 @@
 #include <cstdio>
 #include <cstdlib>
 #include <iostream>
+#include <memory>
 #include <streambuf>
 #include <stdexcept>
 #include <thread>
@@ -64,6 +65,32 @@ static void pool_throwing() {
         for (size_t i = 0; i < effect.size(); ++i) CHECK(effect[i] == r + 1);
         CHECK(pool.done() == static_cast<size_t>((r + 1) * 48));
         CHECK(pool.idle() <= pool.size());
+    }
+}
+
+// fork-join idiom: the last reference to a join object is dropped when the closure of the last sub-job is
+// destroyed; its destructor enqueues the continuation.  The pool destroys a job object outside its mutex and
+// before it reports the job as done, so this neither self-deadlocks nor escapes loop_until_empty().
+struct Join {
+    tlx::ThreadPool& pool;
+    long& result;
+    std::atomic<long> sum{0};
+    Join(tlx::ThreadPool& p, long& r) : pool(p), result(r) {}
+    ~Join() { long s = sum.load(); long& r = result; pool.enqueue([s, &r]() { r = s; }); }
+};
+
+static void pool_fork_join() {
+    for (int rep = 0; rep < 50; ++rep) {
+        tlx::ThreadPool pool(3);
+        long result = -1;
+        {
+            auto join = std::make_shared<Join>(pool, result);
+            for (long i = 1; i <= 8; ++i)
+                pool.enqueue([join, i]() { join->sum += i; });
+        }
+        pool.loop_until_empty();
+        CHECK(result == 36);
+        CHECK(pool.done() == 9);
     }
 }
 
@@ -126,6 +153,7 @@ int main() {
     pool_rounds(1, 20);
     pool_rounds(3, 40);
     pool_throwing();
+    pool_fork_join();
     pool_two_waiters();
     semaphore_mixed();
     barrier_rounds<tlx::ThreadBarrierMutex>(3, 200, false);
